@@ -3690,6 +3690,174 @@ def decide_nullable(ck, facts, f, par, cfg, info, uses, vec0, obj, lp, accs_used
 
 
 # -------------------------------------------------------------------------------------------------
+# clause 7: re-used streams — clear() re-establishes every member the stream operations evolve
+# -------------------------------------------------------------------------------------------------
+
+MUTATORS = ("resize", "push_back", "emplace_back", "pop_back", "clear", "insert", "erase", "assign", "swap", "reserve", "shrink_to_fit")
+
+
+def field_of_this(n):
+    n = strip_cast(n)
+    if n is not None and n.get("k") == "Member" and n.get("field") and (n.get("b") is None or strip_cast(n["b"]).get("k") == "This"):
+        return n["n"]
+    return None
+
+
+def member_effects(f):
+    """-> (set of fields of this read or written in f, dict field -> [how it is mutated])"""
+    used, mut = set(), {}
+    par = parent_map(f)
+    for n in f.nodes():
+        m = field_of_this(n)
+        if m is None:
+            continue
+        used.add(m)
+        p = par.get(id(n))
+        # climb through subscripts / casts: _data[i] = x mutates _data
+        x, q = n, p
+        while q is not None and (q.get("k") == "Cast" or (q.get("k") in ("Index",) and strip_cast(q.get("b")) is x) or (q.get("k") == "OpCall" and q.get("op") == "[]" and strip_cast(q["a"][0]) is x)):
+            x, q = q, par.get(id(q))
+        if q is None:
+            continue
+        if q.get("k") == "Assign" and strip_cast(q["lhs"]) is strip_cast(x):
+            mut.setdefault(m, []).append("assigned" if x is n else "element assigned")
+        elif q.get("k") == "OpCall" and q.get("op") in ("=", "+=", "-=") and strip_cast(q["a"][0]) is strip_cast(x):
+            mut.setdefault(m, []).append("assigned")
+        elif q.get("k") == "Un" and q.get("op") in ("++", "--"):
+            mut.setdefault(m, []).append(q["op"])
+        elif q.get("k") == "MCall" and strip_cast(q.get("obj")) is n:
+            if q.get("n") in MUTATORS or not q.get("cconst"):
+                mut.setdefault(m, []).append(".%s()" % q.get("n"))
+        elif q.get("k") == "Return" and (f.type(f.d.get("ret")) or "").endswith("&") and "const" not in (f.type(f.d.get("ret")) or ""):
+            mut.setdefault(m, []).append("returned by mutable reference")
+    return used, mut
+
+
+def is_empty_temp(n):
+    n = strip_cast(n)
+    return n is not None and n.get("k") in ("Construct", "TempObj", "InitList") and not [a for a in n.get("a", []) if not is_zero(a)]
+
+
+def reset_effects(facts, f, depth=0):
+    """what a reset routine does to the fields of its object: field -> ('reset', text, constant or None) | ('unmodelled', text)"""
+    out = {}
+    for n in f.nodes():
+        k = n.get("k")
+        if k in ("Assign", "OpCall") and n.get("op") == "=":
+            l, r_ = (n["lhs"], n["rhs"]) if k == "Assign" else n["a"]
+            m = field_of_this(l)
+            if m is not None:
+                const = "0" if is_zero(r_) or is_empty_temp(r_) else None
+                out.setdefault(m, []).append(("reset", render(n)[:60], const if const is not None else render(strip_cast(r_))[:40]))
+        if k == "MCall":
+            m = field_of_this(n.get("obj"))
+            if m is not None:
+                if n.get("n") == "clear" or (n.get("n") == "resize" and n.get("a") and is_zero(n["a"][0])) or (n.get("n") == "swap" and n.get("a") and is_empty_temp(n["a"][0])) \
+                        or (n.get("n") == "assign" and n.get("a") and is_zero(n["a"][0])):
+                    out.setdefault(m, []).append(("reset", render(n)[:60], "0"))
+                elif n.get("n") in MUTATORS or not n.get("cconst"):
+                    out.setdefault(m, []).append(("unmodelled", render(n)[:60]))
+            elif n.get("n") == "swap" and n.get("a") and field_of_this(n["a"][0]) is not None:
+                m2 = field_of_this(n["a"][0])
+                out.setdefault(m2, []).append(("reset", render(n)[:60], "0") if is_empty_temp(n.get("obj")) else ("unmodelled", render(n)[:60]))
+            elif (n.get("obj") is None or strip_cast(n["obj"]).get("k") == "This") and depth < 2:
+                for g in facts.functions:
+                    if g.qn == n.get("callee") and g.cls == f.cls and g.tk != "pattern" and g is not f:
+                        for m2, v in reset_effects(facts, g, depth + 1).items():
+                            out.setdefault(m2, []).extend(v)
+                        break
+        if k == "Call":
+            for a in n.get("a", []):
+                m = field_of_this(a)
+                if m is not None:
+                    other = [x for x in n["a"] if x is not a]
+                    if (n.get("callee") or "").endswith("swap") and other and is_empty_temp(through_consts(f, other[0])):
+                        out.setdefault(m, []).append(("reset", render(n)[:60], "0"))
+                    else:
+                        out.setdefault(m, []).append(("unmodelled", render(n)[:60]))
+    return out
+
+
+def check_reset_state(ck, facts):
+    """classes of the in-memory stream (kernel/util/binary_stream.hpp): clear() must re-establish every member that the operations of the
+    class evolve (write/read/seek position, content); a routine that refills the content wholesale resets first"""
+    R = "E7.reset-covers-state"
+    target = featlib.repo_path("kernel/util/binary_stream")
+    classes = {}
+    for f in facts.functions:
+        if f.tk != "pattern" and f.file.startswith(target) and f.cls:
+            classes.setdefault(f.cls, []).append(f)
+    if not classes:
+        ck.incomplete(R, "no class of kernel/util/binary_stream.hpp in the facts")
+        return
+    for cls in sorted(classes):
+        fs = classes[cls]
+        clears = [f for f in fs if f.name == "clear" and not f.params]
+        if not clears:
+            continue
+        clr = clears[0]
+        sc = short_cls(cls).replace("FEAT::", "")
+        evolve, readers = {}, {}
+        for f in fs:
+            if f is clr or f.d.get("ctor") or f.d.get("dtor"):
+                continue
+            used, mut = member_effects(f)
+            for m in used:
+                readers.setdefault(m, set()).add(f.name)
+            for m, how in mut.items():
+                evolve.setdefault(m, []).append("%s (%s)" % (f.name, how[0]))
+        inits = {}
+        for f in fs:
+            if f.d.get("ctor"):
+                for i_ in (f.d.get("inits") or []):
+                    if i_.get("member") and i_.get("init") is not None:
+                        a_ = i_["init"].get("a", [i_["init"]]) if i_["init"].get("k") in ("Construct", "TempObj", "InitList") else [i_["init"]]
+                        inits[i_["member"]] = "0" if (not a_ or all(is_zero(x) for x in a_)) else render(i_["init"])[:40]
+        eff = reset_effects(facts, clr)
+        for m in sorted(evolve):
+            key = "%s/clear/%s" % (sc, m)
+            acts = eff.get(m, [])
+            res = [a for a in acts if a[0] == "reset"]
+            unm = [a for a in acts if a[0] == "unmodelled"]
+            if res:
+                c1 = res[-1][2]
+                c0 = inits.get(m)
+                if c0 is not None and c1 is not None and c0 == "0" and c1 != "0" and re.match(r"^-?\d+$", c1 or ""):
+                    ck.ob(R, key, False, "clear() sets %s to %s, a fresh object starts with %s" % (m, c1, c0), clr.file, clr.line)
+                else:
+                    ck.ob(R, key, True, "evolved by %s; clear() re-establishes it (%s)" % (", ".join(sorted(set(evolve[m]))[:3]), res[-1][1]), clr.file, clr.line,
+                          sample={"member": m, "evolved_by": sorted(set(evolve[m])), "reset": res[-1][1]})
+            elif unm:
+                ck.incomplete(R, "%s: clear() applies %s to the member, which the analysis does not model as a reset" % (key, unm[0][1]))
+            else:
+                ck.ob(R, key, False, "%s is evolved by %s and read by %s, but clear() does not re-establish it: after use, clear(), use the object continues from the stale value "
+                      "(a stream written/read before and then cleared puts the next bytes at the old position)" % (
+                          m, ", ".join(sorted(set(evolve[m]))[:3]), ", ".join(sorted(readers.get(m, []))[:4])), clr.file, clr.line)
+        # wholesale refill of the storage of a member object through a mutable accessor: reset first
+        for f in fs:
+            if f is clr or f.d.get("ctor"):
+                continue
+            cfg = f.cfg
+            for n in f.nodes():
+                if n.get("k") == "MCall" and n.get("n") in ("resize", "assign") and strip_cast(n.get("obj")).get("k") == "Ref":
+                    ini = const_inits(f).get(strip_cast(n["obj"]).get("d"))
+                    ini = strip_cast(ini) if ini is not None else None
+                    if ini is None or ini.get("k") != "MCall" or field_of_this(ini.get("obj")) is None or ini.get("cconst"):
+                        continue
+                    mobj = field_of_this(ini["obj"])
+                    resets = [x for x in f.nodes() if x.get("k") == "MCall" and x.get("n") == "clear" and not x.get("a")
+                              and (x.get("obj") is None or strip_cast(x["obj"]).get("k") == "This" or field_of_this(x.get("obj")) == mobj)]
+                    dom = cfg is not None and any(cfg.stmt_dominates(x["i"], n["i"]) for x in resets)
+                    key = "%s/%s/reset-before-refill" % (sc, f.name)
+                    if dom:
+                        ck.ob(R, key, True, "the storage of %s is refilled by %s after %s" % (mobj, render(n)[:40], render(resets[0])), f.file, n.get("l"))
+                    elif any(is_call(x) and x is not n and x is not ini and (field_of_this(x.get("obj")) == mobj) and not x.get("cconst") for x in f.nodes()):
+                        ck.incomplete(R, "%s: the storage of %s is refilled without a recognised reset, but other non-const members of it are called" % (key, mobj))
+                    else:
+                        ck.ob(R, key, False, "%s replaces the whole content of %s (%s) without resetting it first: the position of the previous use survives" % (f.name, mobj, render(n)[:40]), f.file, n.get("l"))
+
+
+# -------------------------------------------------------------------------------------------------
 # clause 4b: E4 — recursion scheme of the meta containers' stream / file IO
 # -------------------------------------------------------------------------------------------------
 
@@ -3909,6 +4077,9 @@ def declare_rules(ck, thorough):
     ck.rule("E7.load-state-reset", "every data member of CheckpointControl that the load path fills and restore_object reads is reset by clear_input() or overwritten "
             "unconditionally on every load (operator[]= / insert_or_assign / resize, not emplace / insert), so that no state of an earlier load survives; breaks for: one "
             "CheckpointControl reading two checkpoints in a row (load(A), clear_input(), load(B)) with an identifier at different offsets", 2)
+    ck.rule("E7.reset-covers-state", "in the classes of the in-memory stream (BinaryStream and its buffer) clear() re-establishes every data member that some operation of the "
+            "class evolves (content, read/write position) with the value a fresh object has, and a routine that refills the content wholesale resets first; breaks for: a "
+            "stream object that is written or read, cleared (or re-filled by read_stream) and used again - the second object lands at the stale position", 4)
     ck.rule("E12.meta-checkpoint", "meta containers: set_checkpoint_data appends [u64 length of first][first][rest] and returns the bytes appended; restore_from_checkpoint_data reads "
             "that word, hands exactly [8, 8+length) to the same sub-object and the remainder to the rest; get_checkpoint_size covers it", 60)
     ck.rule("E12.length-width", "a length word read from a checkpoint stream is used in offset arithmetic at its full width (no narrowing to a 32-bit signed type); "
@@ -3956,6 +4127,7 @@ def run_on(ck, facts, primary):
         check_rowptr_builders(ck, facts)
         check_checkpoint_control(ck, facts)
         check_checkpoint_state(ck, facts)
+        check_reset_state(ck, facts)
         check_meta_checkpoints(ck, facts)
         check_meta_stream_recursion(ck, facts)
         check_meta_file_recursion(ck, facts)
